@@ -85,6 +85,7 @@ def run_case(run, tf, drv, files, pl, single, via_cli, tag, spelling=None, out_i
     case = {"files": [(rel, b.token()) for rel, b in files], "pl": pl, "single": single,
             "via_cli": via_cli, "gen": tag, "spelling": spelling,
             "out_inside": bool(out_inside),
+            "second_run": tag in ("random", "replay-second") and (len(files) + pl // 16384 + sum(len(b) for _, b in files)) % 4 == 1,
             "links": __import__("harness.props.creation", fromlist=["links"]).links(files)}
     with sandbox("c01") as box:
         root = os.path.join(box, "payload")
@@ -106,6 +107,21 @@ def run_case(run, tf, drv, files, pl, single, via_cli, tag, spelling=None, out_i
         try:
             if wd:
                 os.chdir(wd)
+            if case.get("second_run") and not single and not case.get("out_inside"):
+                # an earlier run wrote the same output path; since then one payload file was
+                # rewritten in place (same size, other bytes): the new metafile describes the new bytes
+                rel0, blob0 = max(files, key=lambda f: len(f[1]))
+                if len(blob0) and not getattr(blob0, "hardlink_of", None) and not getattr(blob0, "symlink_of", None) \
+                        and not any(getattr(b, "hardlink_of", None) == rel0 or getattr(b, "symlink_of", None) == rel0
+                                    for _, b in files):
+                    path0 = os.path.join(root, *rel0.split("/"))
+                    st = os.stat(path0)
+                    with open(path0, "wb") as fd:
+                        fd.write(bytes(x ^ 0x5A for x in blob0.bytes()))
+                    observe(tf, spelled, pl, via_cli, out)
+                    with open(path0, "wb") as fd:
+                        fd.write(blob0.bytes())
+                    os.utime(path0, ns=(st.st_atime_ns, st.st_mtime_ns))
             obs = observe(tf, spelled, pl, via_cli, out)
         except Exception as exc:  # the property promises a metafile for every such tree
             run.fail("impl-vs-spec", case, {"raised": repr(exc)})
@@ -182,7 +198,8 @@ def run(tier, seed, replay=None):
         c = replay["case"]
         from harness.props import creation as _cr
         files = _cr.files_of_case(c)
-        run_case(run, tf, drv, files, c["pl"], c["single"], c["via_cli"], "replay",
+        run_case(run, tf, drv, files, c["pl"], c["single"], c["via_cli"],
+                 "replay-second" if c.get("second_run") else "replay",
                  spelling=c.get("spelling"), out_inside=bool(c.get("out_inside")))
     else:
         from harness.props import creation as _crc
